@@ -506,10 +506,12 @@ deriving DecidableEq, Repr
 
 /-- `rewind_body(body, body_pos)` with `body_pos` not `None` -/
 def rewindBody (body : Body) (pos : BodyPos) : Except Exc Body :=
-  let seek : Avail := match body with | .file f => f.seek | _ => .absent
-  match seek, pos with
-  | .ok, .int n => (match body with | .file f => .ok (.file { f with pos := n }) | b => .ok b)
-  | .raises, .int _ => .error .unrewindableBody
+  match body, pos with
+  | .file f, .int n =>                      -- `seek` may exist: only file-like bodies have one
+    (match f.seek with
+     | .ok => .ok (.file { f with pos := n })
+     | .raises => .error .unrewindableBody
+     | .absent => .error .valueError)
   | _, .failedTell => .error .unrewindableBody
   | _, _ => .error .valueError
 
@@ -558,6 +560,13 @@ structure HResult where
 def pmc (headers : List (Str × Str)) : List (Str × Str) :=
   headers.filter fun kv => !((Gen.contentSpecificHeaders.map lower).contains (lower kv.1))
 
+/-- the `body_pos` the next `urlopen` call receives after a redirect: the pool's recursive call
+passes it on, `PoolManager.urlopen`'s does not -/
+def nextPos (lvl : Level) (pos1 : BodyPos) : BodyPos :=
+  match lvl with
+  | .pool => pos1
+  | .manager => .none
+
 /-- One `urlopen` call tree: every element of the history is the outcome of one attempt.  At pool
 level (`HTTPConnectionPool.urlopen(redirect=True)`) every recursive call receives `body_pos`; at
 manager level the pool is called with `redirect=False`, so retries stay inside the pool call (with
@@ -580,10 +589,10 @@ def sendHistory (lvl : Level) (cfg : Cfg) (target : Str) (chunked : Bool) : List
             | .ok | .connErr => none
             | .readErr | .retryStatus => some { st with body := r.after, pos := pos1 }
             | .redirectKeep =>
-              some { st with body := r.after, pos := (match lvl with | .pool => pos1 | .manager => .none) }
+              some { st with body := r.after, pos := nextPos lvl pos1 }
             | .redirect303 =>
               some { meth := lit "GET", headers := pmc st.headers, body := .none, after303 := true,
-                     pos := (match lvl with | .pool => pos1 | .manager => .none) }
+                     pos := nextPos lvl pos1 }
           match next with
           | none => ⟨[a], .ok ()⟩
           | some st' =>
